@@ -136,7 +136,7 @@ def main():
         "engines": [
             {"name": "harness", "path": "/verif/harness",
              "serves_properties": sorted(CHECKS.keys()),
-             "kind_free_text": "cargo workspace of runtime monitors (reference models, probe operators, recording RNG, statistical monitor, event-log checkers; Miri/TSan for C09) that path-depends on /repo/packages/* and is rebuilt by ./check on every run"},
+             "kind_free_text": "cargo workspace of runtime monitors, one binary per property, (reference models, probe operators, recording RNG, statistical monitor, event-log checkers; Miri/TSan for C09) that path-depends on /repo/packages/* and is rebuilt by ./check on every run"},
         ],
         "checks": checks,
         "notes": "Runtime monitoring only. Verdicts are three-valued; INCONCLUSIVE lines never fail a run, a run that observed nothing exits 3. known_findings.json lists repaired (fixed:) and open findings; only open entries with an exact signature are downgraded to KNOWN-FINDING lines.",
